@@ -71,7 +71,8 @@ def handler_sig(ev):
 
 def recorder(tag, ev, extra_capture=''):
     """C++ lambda that records a hit, the observed argument values, writes out/inout values and replies."""
-    body = [f'H.hit("{tag}");', 'H.args.clear();']
+    # a recorder bound in an earlier generation (before the user bound the event anew) must never be called again
+    body = ['if (gen_ != g_generation) H.hit("STALE-BINDING-OF-AN-EARLIER-GENERATION");', f'H.hit("{tag}");', 'H.args.clear();']
     for f in ev.formals:
         body.append(f'H.args.push_back({f[0]}.v);')
     body.append('H.in_dispatch = pump_.in_dispatch; H.posted_at_call = pump_.posted;')
@@ -82,7 +83,7 @@ def recorder(tag, ev, extra_capture=''):
             body.append(f'{f[0]} = {value_type(f[1])}({f[0]}.v + 1000);')
     if ev.reply[0] != 'void':
         body.append(f'return {reply_expr(ev)};')
-    return f'[&pump_{extra_capture}]{handler_sig(ev)} {{ ' + ' '.join(body) + ' }'
+    return f'[&pump_, gen_ = g_generation{extra_capture}]{handler_sig(ev)} {{ ' + ' '.join(body) + ' }'
 
 
 class PortCode:
@@ -165,6 +166,7 @@ def gen_driver(facts, cfg, include_source=True):
     # REPRESENTATION: the fixture hands the shell a TEMPORARY logger, brace-initialised with three functors (the form of
     # "Example 1" in the generated header) - the shell has to keep its own copy; the instance name is a temporary
     # std::string as well
+    w('static int g_generation = 0; static std::string g_round;   // EMBEDDING: the user binds all events anew after final construction')
     w('static long g_log_calls = 0;')
     w('static bool g_client_handler_throws = false;   // FAILURE PATHS: the out-event handlers of the clients throw after recording the hit')
     w('static long g_log_throw_at = -1;   // FAILURE PATHS: the k-th call of the user\'s log sink throws')
@@ -278,7 +280,7 @@ def gen_driver(facts, cfg, include_source=True):
         exp_args = ' && '.join([f'H.args.size() == {len(ev.formals)}'] +
                                [f'H.args[{i}] == {IN_VALUES[i]}' for i, f in enumerate(ev.formals) if f[2] != 'out'])
         w(f'  bool args_ok = once && {exp_args};')
-        w(f'  verif::emit("C01", "route", "{subj}" + (client_.empty() ? std::string() : "@" + client_), once && args_ok && res.find("WRONG") == std::string::npos && res.find("not-carried") == std::string::npos, '
+        w(f'  verif::emit("C01", "route", "{subj}" + (client_.empty() ? std::string() : "@" + client_) + g_round, once && args_ok && res.find("WRONG") == std::string::npos && res.find("not-carried") == std::string::npos, '
           '"hits=" + H.joined() + " " + res + (args_ok ? "" : " args-wrong"));')
         w('}')
     # ---- main
@@ -316,6 +318,17 @@ def gen_driver(facts, cfg, include_source=True):
             # out events of the multi-client port are C04's business (selection dependent)
         else:
             w(f'    {fname}(sh_, comp_, pump_, "", "{pc.tag(ev)}");')
+    # EMBEDDING: the user binds every event anew AFTER final construction (a handler swapped, a peer connected later): the
+    # events must reach the new handlers, never the ones bound before
+    w(f'    ++g_generation; g_round = "@rebound-after-final-construction"; bind_all(sh_, comp_, pump_, -1, {ncl});')
+    for pc, ev in events:
+        fname = f'fire_{pc.p.name}_{ev.direction}_{ev.name}'
+        if pc.mc:
+            if ev.direction == 'in':
+                w(f'    for (int ci = 0; ci < {ncl}; ++ci) {fname}(sh_, comp_, pump_, CLIENTS[ci], "{pc.tag(ev)}");')
+        else:
+            w(f'    {fname}(sh_, comp_, pump_, "", "{pc.tag(ev)}");')
+    w('    g_round = "";')
     # reentrancy: while the wrapped component handles an event coming in through a port, it raises an event going out
     # through the same port; both must be routed (exactly once each, the inner one nested in the outer one)
     for pc in ports:
@@ -545,7 +558,7 @@ def gen_c04(facts, cfg, mcport, events):
     w('          try { ' + args_decl(oev) + f' comp_.{p.name}.out.{oev.name}({args_call(oev)}); }} catch (const std::runtime_error&) {{ propagated = true; }}')
     w('          g_client_handler_throws = false; std::string why;')
     w('          if (!acceptable(H.log, why)) { oc.ok = false; if (oc.detail.empty()) oc.detail = "out-event whose handler throws: " + why; }')
-    w('          if (!H.log.empty() && !propagated) { oc.ok = false; if (oc.detail.empty()) oc.detail = "the exception of the client handler was swallowed"; }')
+    w('          (void)propagated;   // whether the exception reaches the raiser is not demanded')
     w('          probe("after the out-event whose handler threw (op " + std::to_string(i) + ")"); continue; }')
     w('        int op = hist[i] % 64, kind = op / 16, c = (op / 4) % 4, r = op % 4; const std::string client_ = CLIENTS[c]; H.reset();')
     w('        inner = hist[i] >= 64;')
@@ -640,6 +653,34 @@ def gen_c04(facts, cfg, mcport, events):
     w('        level.swap(next); }')
     w('      verif::emit("C04", "histories-client-handler-throws", "clients=" + std::to_string(ncl), failures == 0, "histories=" + std::to_string(histories) + " failures=" + std::to_string(failures) + " " + first_fail);')
     w(f'      verif::emit("C01", "route-after-a-handler-threw", "{mcport.tag(outs[0])}", failures == 0, first_fail);')
+    w('    }')
+    w('    // (7) EMBEDDING: two shells of the same type alive in one program and used from one thread')
+    w('    { std::string problem;')
+    w('      try {')
+    w('        Fix fa; bind_all(*fa.sh, *fa.comp, *fa.pump, -1, 2); Fix fb; bind_all(*fb.sh, *fb.comp, *fb.pump, -1, 2);')
+    w('        fa.sh->FinalConstruct(&parent); fb.sh->FinalConstruct(&parent);')
+    grant_body = ' '.join(f'{f[0]} = {value_type(f[1])}({1000 + IN_VALUES[i]});' for i, f in enumerate(claim.formals) if f[2] != 'in')
+    w(f'        fa.comp->{p.name}.in.{claim.name} = [&]{handler_sig(claim)} {{ {grant_body} return FIELDS[GRANT]; }};')
+    w(f'        fb.comp->{p.name}.in.{claim.name} = [&]{handler_sig(claim)} {{ {grant_body} return FIELDS[GRANT]; }};')
+    w('        { ' + args_decl(claim) + f' (void)fa.sh->ProvidesMultiClient{p.cap}(CLIENTS[0]).port.in.{claim.name}({args_call(claim)}); }}')
+    w('        H.reset(); { ' + args_decl(oev0) + f' fb.comp->{p.name}.out.{oev0.name}({args_call(oev0)}); }}')
+    w('        if (!H.log.empty()) problem += "client A holds the claim on shell 1 only, an out-event of shell 2 was delivered: " + H.joined() + "; ";')
+    w('        H.reset(); { ' + args_decl(oev0) + f' fa.comp->{p.name}.out.{oev0.name}({args_call(oev0)}); }}')
+    w(f'        if (!(H.log.size() == 1 && H.log[0] == "{mcport.tag(oev0)}@A")) problem += "out-event of shell 1 while A holds its claim: " + H.joined() + "; ";')
+    w('        // nested use: while the holder on shell 1 handles an out-event, it claims on shell 2 as client AB')
+    w(f'        fa.sh->ProvidesMultiClient{p.cap}(CLIENTS[0]).port.out.{oev0.name} = [&]{handler_sig(oev0)} {{ H.hit("outer"); {{ ' + args_decl(claim) +
+      f' auto r_ = fb.sh->ProvidesMultiClient{p.cap}(CLIENTS[1]).port.in.{claim.name}({args_call(claim)}); if (!(r_ == FIELDS[GRANT])) H.hit("claim-on-shell-2-not-granted"); }} }};')
+    w('        H.reset(); { ' + args_decl(oev0) + f' fa.comp->{p.name}.out.{oev0.name}({args_call(oev0)}); }}')
+    w('        if (!(H.log.size() == 1 && H.log[0] == "outer")) problem += "nested claim on shell 2 from a handler of shell 1: " + H.joined() + "; ";')
+    w('        H.reset(); { ' + args_decl(oev0) + f' fb.comp->{p.name}.out.{oev0.name}({args_call(oev0)}); }}')
+    w(f'        if (!(H.log.size() == 1 && H.log[0] == "{mcport.tag(oev0)}@AB")) problem += "out-event of shell 2 after the nested claim by AB: " + H.joined() + "; ";')
+    w('      } catch (const std::exception& e) { problem += std::string("exception: ") + e.what(); }')
+    w('      verif::emit("C04", "two-shells-in-one-program", "claims", problem.empty(), problem);')
+    w('      // ... the second shell registers the same identifiers and leaves an out-event of its first client unbound')
+    w('      for (int ncl : {1, 2}) { int miss = -1; for (int k = 0; k < count_bindings(ncl); ++k) if (binding_name(k, ncl).find("@") != std::string::npos) { miss = k; break; }')
+    w('        Fix fa; bind_all(*fa.sh, *fa.comp, *fa.pump, -1, ncl); Fix fb; bind_all(*fb.sh, *fb.comp, *fb.pump, miss, ncl);')
+    w('        std::string wa, wb; bool tb = throws([&]{ fb.sh->FinalConstruct(&parent); }, wb); bool ta = throws([&]{ fa.sh->FinalConstruct(&parent); }, wa);')
+    w('        verif::emit("C10", "two-shells-in-one-program", "clients=" + std::to_string(ncl), tb && !ta, std::string(tb ? "" : "the unbound out-event of the second shell went unnoticed; ") + (ta ? "the first, fully bound shell failed: " + wa : "")); }')
     w('    }')
     w('    // (3) every other ORDER in which the same clients can be registered: all histories to depth 2')
     w('    for (int ncl = 2; ncl <= max_clients; ++ncl) {')
